@@ -2,7 +2,8 @@
 
     The loop fragment: F of C15 plus [while c], [while true], [repeat .. until c], numeric [for] with literal bounds and
     [if c then .. break end]; the semantics [run] bounds every loop execution by [fuel] iterations (a run that exhausts it
-    ends with [OFuel]; its trace is the prefix executed so far, so the statements below hold for such prefixes too).
+    ends with [OStop false]; its trace is the prefix executed so far, so the statements below hold for such prefixes too;
+    the same goes for runs ended by a failed assert, an error or a return, [OStop true]).
     Events carry a flag: [false] for probes that are not inside a loop body — the points "after a loop" C41 speaks about.
 
     The full statement — the target once the analyzer is repaired —
